@@ -218,7 +218,7 @@ pub fn run(args: &Args) -> i32 {
     }
     let tier = args.tier;
     let mut rep = Report::new("C09", tier, "fault_enumeration");
-    let k = if tier == Tier::Thorough { 4 } else { 2 };
+    let k = if tier == Tier::Thorough { 4 } else { 3 };
     let mk = |proto, v6, strategy, ports, privileged| Cell { proto, v6, strategy, ports, privileged, ext: false };
     let cells = vec![
         mk(Proto::Icmp, false, MultipathStrategy::Classic, Ports::None, true),
